@@ -120,6 +120,21 @@ def alloc_body(v, project=True, form=None, gen=True, ctype=True, mappings=False)
 NEW_CONS = U(7, ops.K_CONS)
 
 
+def _reparent_inside(app, v):
+    """grandchild G under B (child of A): move G directly under A - same tree, different parent"""
+    g = U(50)
+    r = _rq(app, 39, 'POST', '/resource_providers', {'name': 'grand', 'uuid': g, 'parent_provider_uuid': RP_B})
+    assert r.status < 300, r.status
+    return _rq(app, v, 'PUT', '/resource_providers/%s' % g, {'name': 'grand', 'parent_provider_uuid': RP_A}).status == 200
+
+
+def _unparent(app, v):
+    g = U(51)
+    r = _rq(app, 39, 'POST', '/resource_providers', {'name': 'grand2', 'uuid': g, 'parent_provider_uuid': RP_A})
+    assert r.status < 300, r.status
+    return _rq(app, v, 'PUT', '/resource_providers/%s' % g, {'name': 'grand2', 'parent_provider_uuid': None}).status == 200
+
+
 def reshaper_body(v, mappings=False, ctype=True):
     c = alloc_body(max(v, 28), form='dict', mappings=mappings, ctype=ctype)
     c['consumer_generation'] = None
@@ -228,6 +243,10 @@ FEATURES = [
      lambda a, v: _cand(a, v, 'resources1=VCPU:1&resources2=DISK_GB:1&group_policy=none&same_subtree=1,2').status == 200),
     ('re-parenting a provider', 37,
      lambda a, v: _rq(a, v, 'PUT', '/resource_providers/%s' % RP_B, {'name': 'rpB', 'parent_provider_uuid': RP_SPARE}).status == 200),
+    ('re-parenting a provider inside its tree', 37,
+     lambda a, v: _reparent_inside(a, v)),
+    ('un-parenting a provider', 37,
+     lambda a, v: _unparent(a, v)),
     ('consumer_type in GET /allocations/{c}', 38,
      lambda a, v: 'consumer_type' in _rq(a, v, 'GET', '/allocations/%s' % CONS_A).json),
     ('consumer_type required in PUT /allocations', 38,
